@@ -177,7 +177,7 @@ def _dispatch_scope(field, exp, got, info):
 # specification with the shared pipeline of checks/core_common.py
 DISPATCH = dict(
     sig="dispatch", scope=_dispatch_scope, merge=True,
-    sc=dict(family="dispatch", n=(50, 800), mc=dict(max_calls=11, max_polls=2, after_end=0, max_rebinds=1), mc_thorough=dict(max_calls=13),
+    sc=dict(family="dispatch", n=(50, 200), mc=dict(max_calls=11, max_polls=2, after_end=0, max_rebinds=1), mc_thorough=dict(max_calls=12),
             invariants=["FlowRefinesSem", "PendingNextIsNoOp"]),
     cs=[dict(family="dispatch", n=(40, 500), paths=(3, 5), calls=40, rebinds=True,
              label="YarnTrace: command statements dispatched repeatedly, pending at the head of option bodies")],
